@@ -366,6 +366,12 @@ type ReplayOutcome struct {
 
 func writeReplay(w *World, verif, prop string, s *OblSummary, path string) string {
 	ob := s.Failed[0]
+	for _, f := range s.Failed {
+		if f.Result.Status != "skipped" {
+			ob = f
+			break
+		}
+	}
 	// prefer an instance with a model
 	for _, f := range s.Failed {
 		if f.Result.Status == "sat" {
